@@ -122,6 +122,17 @@ class Check:
             "uncovered": self.uncovered,
             "known_findings_hit": sorted(self.known_hits),
         }
+        def dedupe(xs):
+            out = []
+            for x in xs:
+                if x not in out:
+                    out.append(x)
+            return out
+        self.assumptions = dedupe(self.assumptions)
+        cov["uncovered"] = dedupe(self.uncovered)
+        for k, v in list(self.extra.items()):
+            if isinstance(v, list) and all(isinstance(x, str) for x in v):
+                self.extra[k] = dedupe(v)
         cov.update(self.extra)
         ev = {"property_id": self.pid, "tier": self.tier, "seed": self.seed, "level": level,
               "coverage": cov, "assumptions": self.assumptions, "wall_s": round(wall, 2),
